@@ -66,6 +66,8 @@ def families(tier, seed):
             out.append(dict(name=f'enumeration contract [{cname}] [{be}]',
                             run=co.enumeration_check(cname, be, seed, n), label='bounded'))
     out.append(dict(name='partial cubes', run=co.partial_cube_check(4), label='bounded'))
+    for be in ('cudd', 'autoref'):
+        out.append(dict(name=f'enumeration on variables of 11 and 12 bits [{be}]', run=co.wide_enumeration(be), label='bounded'))
     return out
 
 
